@@ -1,9 +1,12 @@
 (* C12 -- results depend only on the current inputs, not on an object's history.
    Models: model/ObjectSM.v (Clipper64 state machine with the sort cache, RectClip64 per-path loop, member policy);
-   regenerated: gen/Gen_fields.v.  The offset plan (which delta / end type each path of a ClipperOffset gets) is
-   model/OffsetPlan.v, owned by the offset checks; here offset history dependence is decided by validation. *)
-From Coq Require Import ZArith List Bool String Permutation Sorted.
+   regenerated: gen/Gen_fields.v.  The offset plan (which routine / delta / end type / arc steps each path of a
+   ClipperOffset gets, which fill rule the call uses) is model/OffsetPlan.v, tied to the code by the observer
+   correspondence of checks/C06.py and C07.py; its order-independence theorems are at the end of this file, the
+   geometry behind the plan is validated (far-apart paths and groups against each alone) by checks/C12.py. *)
+From Coq Require Import ZArith List Bool String Permutation Sorted Floats.
 From Clip Require Import base.Region gen.Gen_fields model.ObjectSM proofs.ObjectSM proofs.ObjectSM_fields.
+From Clip Require Import model.OffsetPlan proofs.OffsetPlanProofs.
 Import ListNotations.
 
 (* For every history of AddSubject/AddOpenSubject/AddClip/AddReuseableData/option setters/Execute/Clear on one object,
@@ -69,3 +72,50 @@ Theorem C12_rect_object_reuse :
     = map (rect_execute path out scratch empty skip clip) calls.
 Proof. exact rect_object_reuse. Qed.
 Print Assumptions C12_rect_object_reuse.
+
+(* ClipperOffset, one call: what a path is offset with -- its length, group_delta_, join type, the routine
+   (polygon / joined / open path / point), the end type (for the open-path routine) and the arc step constants (for
+   groups with a round join or end) -- listed path by path for group number i, is a function of that group and of the
+   delta passed to Execute alone ... *)
+Theorem C12_plan_group_views : forall (gs : list group) (delta : float) (i : nat) (g : group),
+  nth_error gs i = Some g ->
+  map (view g) (entries_of i (plan gs delta)) = map (own_view g delta) (g_lens g).
+Proof. exact plan_group_views. Qed.
+Print Assumptions C12_plan_group_views.
+
+(* ... hence the same whatever groups were added before or after it, and in whatever order (prefix- and permutation-
+   insensitive).  (Refuted for the code before offset-endtype-leak.patch and offset-delta-abs-leak.patch: witnesses in
+   the header of model/OffsetPlan.v.) *)
+Theorem C12_plan_order_independent : forall (gs gs' : list group) (delta : float) (i j : nat) (g : group),
+  nth_error gs i = Some g -> nth_error gs' j = Some g ->
+  map (view g) (entries_of i (plan gs delta)) = map (view g) (entries_of j (plan gs' delta)).
+Proof. exact plan_order_independent. Qed.
+Print Assumptions C12_plan_order_independent.
+
+(* within a group: reordering its paths (the group keeping join, end type and the orientation its lowest path gives
+   it) only reorders what the paths are offset with *)
+Theorem C12_plan_path_order_independent : forall (gs gs' : list group) (delta : float) (i j : nat) (g g' : group),
+  nth_error gs i = Some g -> nth_error gs' j = Some g' ->
+  same_fields g g' -> Permutation (g_lens g) (g_lens g') ->
+  Permutation (map (view g) (entries_of i (plan gs delta))) (map (view g) (entries_of j (plan gs' delta))).
+Proof. exact plan_path_order_independent. Qed.
+Print Assumptions C12_plan_path_order_independent.
+
+(* the fill rule of the clean-up union and the reversal flag: independent of the order of the groups when the oriented
+   Polygon groups (those with a lowest path) agree ... *)
+Theorem C12_fill_rule_consistent : forall (rev : bool) (gs : list group) (delta : float) (r : bool),
+  (forall g, In g gs -> oriented g = true -> g_reversed g = r) ->
+  (exists g, In g gs /\ oriented g = true) ->
+  x_fill_negative (execute_plan rev gs delta) = r /\ x_reverse_solution (execute_plan rev gs delta) = xorb rev r.
+Proof. exact orientation_preserved. Qed.
+Print Assumptions C12_fill_rule_consistent.
+
+(* ... and NOT in general: with Polygon groups of opposite orientation the first one decides (known finding
+   offset.group-orientation.first-polygon-group-decides; witness replayed on the real code by checks/C12.py,
+   demo /verif/triage/demos/offset-group-orientation.cpp) *)
+Theorem C12_fill_rule_order_independent_refuted :
+  exists gs gs' delta,
+    Permutation gs gs' /\ insignificant delta = false /\
+    x_fill_negative (execute_plan false gs delta) <> x_fill_negative (execute_plan false gs' delta).
+Proof. exact fill_rule_order_dependent_refuted. Qed.
+Print Assumptions C12_fill_rule_order_independent_refuted.
